@@ -82,7 +82,7 @@ def runCase : CaseFn := fun c => Id.run do
         lastOp := none
       | some d =>
         if !dumpOk cap d then
-          out := out.push s!"ORACLE-FAIL C16 case {c.num} line {ln}: resident-set invariant broken: {obs}"
+          out := out.push s!"ORACLE-FAIL C16 case {c.num} line {ln}: shape={dumpShape cap d} resident-set invariant broken (capacity {cap}): {obs}"
         if kind == "seq" then
           match prevDump, lastOp with
           | some d1, some (o, r, txt) =>
